@@ -60,7 +60,15 @@ type AsyncResult struct {
 	Problem    string // infrastructure problem (not a verdict)
 	Log        []string
 	RestCalls  int
+	// KnownLockReports counts lock tracker reports that match a listed finding
+	KnownLockReports int
 }
+
+// LockOrderAppLocksShape is the exclusion of the listed finding about application locks taken in both orders by the
+// preemption code of the scheduling cycle.
+const LockOrderAppLocksShape = "lock-order-app-locks-in-preemption"
+
+var lockOrderAppLocks = regexp.MustCompile(`(?s)Inconsistent locking.*\(\*Application\)\.tryAllocate.*findEligiblePreemptionVictims`)
 
 // restURLs are the read-only REST end points the reader goroutines call while the clients run.
 var restURLs = []string{
@@ -495,9 +503,20 @@ func RunAsync(c AsyncCase, yield func()) *AsyncResult {
 	readerWg.Wait()
 	close(shim.stop)
 	<-confirmDone
-	if locking.IsDeadlockDetected() {
-		res.Violations = append(res.Violations, "the lock tracker reported a potential deadlock or lock order inversion (see the process output)")
+	// the reports of the lock tracker since the last run (the flag of the locking package is sticky for the process)
+	for _, report := range LockTrackerReports() {
+		if Excluded(LockOrderAppLocksShape) && lockOrderAppLocks.MatchString(report) {
+			// listed finding: the scheduling cycle holds the lock of the asking application while it reads the allocations of
+			// the applications in the victim queues; with two asking applications both orders are seen
+			res.KnownLockReports++
+			continue
+		}
+		if len(report) > 12000 {
+			report = report[:12000]
+		}
+		res.Violations = append(res.Violations, "the lock tracker reported a potential deadlock or lock order inversion:\n"+report)
 	}
+	_ = locking.IsDeadlockDetected
 	select {
 	case e := <-clientErr:
 		res.Problem = e
